@@ -5,6 +5,17 @@ ROOT = os.path.dirname(os.path.dirname(os.path.abspath(__file__)))
 ids = [json.loads(l)["id"] for l in open(os.path.join(ROOT, "properties.jsonl"))]
 
 CLAIMED = {
+ "C04": dict(
+   text="Lean 4 theorem validate_ok_iff_conforms: for every claim dictionary, option dictionary, now and leeway, JWTClaims.validate (Model/Claims.lean, "
+        "mirroring rfc7519/claims.py branch by branch) raises nothing iff the claims satisfy the property statement transcribed as the structure Conforms; "
+        "error_names_violated_constraint + violates_not_conforms; corollaries for expired / not-yet-valid / boolean time / wrong iss, sub, aud. "
+        "Model tied to the code by a correspondence run (exhaustive single-claim×single-option pools + seeded random dictionaries) and an independent "
+        "Python transcription of the statement used as oracle on the real code.",
+   note="Trusted: Lean kernel; numbers restricted to k/4 so int/float comparison is exact; validator callables drawn from a named finite family; "
+        "named allowances (value options on exp/nbf/iat ignored, falsy expected values, aud only when present) are part of Conforms and listed in DESIGN §3.2. "
+        "Derived claim classes (IDToken, JWTAccessTokenClaims) are covered under C13/C10, not here.",
+   technique="Lean 4 proof (spec ⇔ model, all inputs) + differential correspondence + independent oracle",
+   design="§4 C04"),
  "C08": dict(
    text="Lean 4 theorems over the scope model (Model/Scope.lean): for every grant kind, token generator, supported set, client allowance, "
         "requested and original scope string, issued words ⊆ requested ∩ allowed ∩ supported (∩ original for refresh); unsupported ⇒ invalid_scope; "
